@@ -1,7 +1,9 @@
 import JetVerif.Props.C02
 import JetVerif.Props.C02P
+import JetVerif.Props.C02L
 open JetVerif.Props.C02
 open JetVerif.Props.C02P
+open JetVerif.Props.C02L
 #print axioms load_bounded
 #print axioms getTemplate_terminates
 #print axioms self_reference_is_error
@@ -12,3 +14,7 @@ open JetVerif.Props.C02P
 #print axioms syntax_error_names_a_source_line
 #print axioms buffer_discipline
 #print axioms expression_never_crashes
+#print axioms lexer_never_crashes
+#print axioms lexer_items_lie_in_the_source
+#print axioms every_state_function_is_safe
+#print axioms parseSource_never_crashes
